@@ -135,8 +135,12 @@ def r3(ctx, P=P, rule="C02.R3"):
         for bs in b:
             ctx.check(P, rule, "clear: bitfield before data delete", fa.dominates(bs, xs), "bitfield update precedes the data delete",
                       "data delete at %s not preceded by the bitfield update" % loc(fa, xs), [site_desc(fa, xs)])
+        # the flush comes after the successful delete — or after the decision that the hole holds no
+        # bytes (`clear_length > 0` false): an empty delete is skipped, not issued (defect D18)
+        empty = [fl for _, o, tr, fl in bool_switches(fa, lambda o: o[0] == "bin" and o[1] == "Lt" and term_is_lit(o[2], 0)) if tr is not None and fa.dominates(tr, xs) and fl is not None]
         for fs in f:
-            ctx.check(P, rule, "clear: delete before flush", cx is not None and fa.dominates(cx["ok"], fs), "flush after the data delete",
+            good = cx is not None and (fa.dominates(cx["ok"], fs) or (bool(empty) and not [p_ for p_ in fa.reach(0, avoiding=[cx["ok"]] + empty, include_src=True) if p_ == fs]))
+            ctx.check(P, rule, "clear: delete before flush", good, "flush after the data delete (or after `nothing to delete`)",
                       "periodic flush at %s not dominated by the successful data delete" % loc(fa, fs), [site_desc(fa, fs)])
 
 
